@@ -1,5 +1,6 @@
 import ast
 import inspect
+import os
 from typing import Any
 from typing import TypeVar
 from typing import cast
@@ -71,6 +72,9 @@ def snapshot(obj: Any = undefined) -> Any:
     expr = Source.executing(frame)
 
     source = cast(Source, getattr(expr, "source", None) if expr is not None else None)
+    if source is not None and not os.path.isfile(source.filename):
+        # the code is not stored in a file (doctest, exec, ...) and can not be fixed
+        source = cast(Source, None)
     context = AdapterContext(
         file=SourceFile(source),
         frame=FrameContext(globals=frame.f_globals, locals=frame.f_locals),
@@ -83,7 +87,7 @@ def snapshot(obj: Any = undefined) -> Any:
     key = id(frame.f_code), frame.f_lasti
 
     if key not in state().snapshots:
-        node = expr.node
+        node = expr.node if source is not None else None
         if node is None:
             # we can run without knowing of the calling expression but we will not be able to fix code
             state().snapshots[key] = SnapshotReference(obj, None, context)
